@@ -15,11 +15,6 @@ structure Header where
 
 def HEADER_SIZE : Nat := 9
 
-/-- The harness does not hand a frame to `read_response_frame` when the header announces more than this many bytes
-beyond what is there: `Vec::with_capacity(length)` from the header alone is the driver's own TODO ("Guard from frames
-that are too large") and is outside what C08 claims (DESIGN §7, observations). -/
-def OVERSIZE_SLACK : Nat := 1048576
-
 /-- `read_response_frame` reading from the byte string `bs` (then EOF). -/
 def parseFrame (bs : Bytes) : Except String Header :=
   if bs.length < HEADER_SIZE then .error "hdr.io"
@@ -35,8 +30,7 @@ def parseFrame (bs : Bytes) : Except String Header :=
       else
         let length := beNat ((bs.drop 5).take 4)
         let rest := bs.drop HEADER_SIZE
-        if length > rest.length + OVERSIZE_SLACK then .error "hdr.toolarge"
-        else if rest.length < length then .error "hdr.closed"
+        if rest.length < length then .error "hdr.closed"
         else .ok ⟨flags, stream, opcode, rest.take length⟩
 
 /-- `Buf::get_u8 / get_i16 / get_u8 / get_u32` on the slice of the 9-byte header array: each PANICS when fewer bytes
@@ -77,9 +71,38 @@ def parseFrameP (bs : Bytes) : Outcome Header :=
                 | .ok (len, _) =>
                   let length := beNat len
                   let rest := bs.drop HEADER_SIZE
-                  if length > rest.length + OVERSIZE_SLACK then .err "hdr.toolarge"
-                  else if rest.length < length then .err "hdr.closed"
+                  if rest.length < length then .err "hdr.closed"
                   else .ok ⟨beNat fl, toSigned 16 (beNat st), beNat op, rest.take length⟩
+
+/-! ### reading the body: `Vec::with_capacity(length.min(MAX_BODY_PREALLOCATION)).limit(length)` and the read loop
+(`frame/mod.rs:172-195`, after fix b5f5b38) -/
+
+/-- The announced length is not trusted beyond this for the up-front allocation. -/
+def MAX_BODY_PREALLOCATION : Nat := 2 ^ 20
+
+/-- `Vec` growth when `read_buf` finds the buffer full (`BufMut::chunk_mut` for `Vec<u8>` reserves 64 bytes, `Vec`
+grows to `max(2·cap, len + 64)`). -/
+def growCap (cap : Nat) : Nat := max (2 * cap) (cap + 64)
+
+/-- The read loop over an in-memory source of `avail` bytes followed by EOF: `limit` = announced length, `cap` /
+`len` = the buffer's capacity / length, `peak` = the largest capacity requested so far (ghost).  Every `read_buf`
+copies what fits: `min(spare capacity, limit - len, available)`.  Returns the bytes read, whether the body is
+complete, and the peak capacity.  `fuel` only bounds the iterations (each reads at least one byte or stops). -/
+def readBodyLoop : Nat → (limit cap len avail peak : Nat) → Nat × Bool × Nat
+  | 0, _, _, len, _, peak => (len, false, peak)
+  | fuel + 1, limit, cap, len, avail, peak =>
+    if len ≥ limit then (len, true, peak)
+    else
+      let cap' := if len = cap then growCap cap else cap
+      let peak' := max peak cap'
+      let n := min (min (cap' - len) (limit - len)) avail
+      if n = 0 then (len, false, peak')
+      else readBodyLoop fuel limit cap' (len + n) (avail - n) peak'
+
+/-- `read_response_frame`'s body read for an announced `length` when `avail` bytes follow the header. -/
+def readBody (length avail : Nat) : Nat × Bool × Nat :=
+  let c0 := min length MAX_BODY_PREALLOCATION
+  readBodyLoop (avail + 2) length c0 0 avail c0
 
 def FLAG_COMPRESSION : Nat := 0x01
 def FLAG_TRACING : Nat := 0x02
